@@ -10,7 +10,24 @@ namespace Chalk.InPlace
 
 def deadOf (xs : List Nat) : List Slot := xs.map (fun _ => Slot.dropped)
 def movedOf (xs : List Nat) : List Slot := xs.map (fun _ => Slot.moved)
-def logOf (t : Tag) (xs : List Nat) : Log := xs.map (fun x => (x, t))
+/-- log entries of destructor runs on `xs` at type `ty`: none if the type has no drop glue -/
+def logOf (lay : Layout) (ty : ElemTy) (t : Tag) (xs : List Nat) : Log :=
+  if lay.glue ty then xs.map (fun x => (x, t)) else []
+
+@[simp] theorem logOf_nil (lay : Layout) (ty : ElemTy) (t : Tag) : logOf lay ty t [] = [] := by
+  simp [logOf]
+
+@[simp] theorem logOf_append (lay : Layout) (ty : ElemTy) (t : Tag) (a b : List Nat) :
+    logOf lay ty t (a ++ b) = logOf lay ty t a ++ logOf lay ty t b := by
+  unfold logOf; split <;> simp
+
+theorem logOf_cons (lay : Layout) (ty : ElemTy) (t : Tag) (x : Nat) (xs : List Nat) :
+    logOf lay ty t (x :: xs) = logOf lay ty t [x] ++ logOf lay ty t xs := by
+  unfold logOf; split <;> simp
+
+theorem logDrop_eq (lay : Layout) (ty : ElemTy) (id : Nat) (t : Tag) (log : Log) :
+    lay.logDrop ty id t log = log ++ logOf lay ty t [id] := by
+  unfold Layout.logDrop logOf; split <;> simp
 
 @[simp] theorem deadOf_length (xs : List Nat) : (deadOf xs).length = xs.length := by simp [deadOf]
 @[simp] theorem movedOf_length (xs : List Nat) : (movedOf xs).length = xs.length := by simp [movedOf]
@@ -27,29 +44,29 @@ theorem write_at (pre : List Slot) (s : Slot) (u : Nat) (tail : List Slot) :
       = .ok ⟨pre ++ .liveU u :: tail, .owned⟩ := by
   simp [Region.write]
 
-theorem drop_at (ty : ElemTy) (pre : List Slot) (x : Nat) (tail : List Slot) (log : Log) :
-    (Region.mk (pre ++ ty.live x :: tail) .owned).dropInPlace ty pre.length log
-      = .ok (⟨pre ++ .dropped :: tail, .owned⟩, log ++ [(x, ty.tag)]) := by
-  cases ty <;> simp [Region.dropInPlace, ElemTy.live, ElemTy.tag]
+theorem drop_at (lay : Layout) (ty : ElemTy) (pre : List Slot) (x : Nat) (tail : List Slot) (log : Log) :
+    (Region.mk (pre ++ ty.live x :: tail) .owned).dropInPlace lay ty pre.length log
+      = .ok (⟨pre ++ .dropped :: tail, .owned⟩, log ++ logOf lay ty ty.tag [x]) := by
+  cases ty <;> simp [Region.dropInPlace, ElemTy.live, ElemTy.tag, logDrop_eq]
 
 /-- a `drop_in_place` loop over a run of live slots of the right type drops each of them once, in order -/
-theorem dropRange_run (ty : ElemTy) (xs : List Nat) :
+theorem dropRange_run (lay : Layout) (ty : ElemTy) (xs : List Nat) :
     ∀ (pre tail : List Slot) (log : Log),
-      dropRange ty xs.length pre.length ⟨pre ++ xs.map ty.live ++ tail, .owned⟩ log
-        = .ok (⟨pre ++ deadOf xs ++ tail, .owned⟩, log ++ logOf ty.tag xs) := by
+      dropRange lay ty xs.length pre.length ⟨pre ++ xs.map ty.live ++ tail, .owned⟩ log
+        = .ok (⟨pre ++ deadOf xs ++ tail, .owned⟩, log ++ logOf lay ty ty.tag xs) := by
   induction xs with
-  | nil => intro pre tail log; simp [dropRange, deadOf, logOf]
+  | nil => intro pre tail log; simp [dropRange, deadOf]
   | cons x xs ih =>
     intro pre tail log
     have h1 : pre ++ (x :: xs).map ty.live ++ tail = pre ++ ty.live x :: (xs.map ty.live ++ tail) := by
       simp
-    have h2 := ih (pre ++ [Slot.dropped]) tail (log ++ [(x, ty.tag)])
+    have h2 := ih (pre ++ [Slot.dropped]) tail (log ++ logOf lay ty ty.tag [x])
     simp only [List.length_append, List.length_cons, List.length_nil, Nat.zero_add] at h2
     simp only [List.length_cons, dropRange, h1, drop_at]
     have h3 : pre ++ Slot.dropped :: (xs.map ty.live ++ tail)
         = pre ++ [Slot.dropped] ++ xs.map ty.live ++ tail := by simp
     rw [h3, h2]
-    simp [deadOf, logOf]
+    simp [deadOf, logOf_cons lay ty ty.tag x xs]
 
 /-! ### the callback's answers -/
 
@@ -78,9 +95,9 @@ theorem oks_or_first_failure (cb : Callback) : ∀ (i : Nat) (xs : List Nat),
 
 /-! ### in-place path -/
 
-theorem mapLoop_ok (cb : Callback) : ∀ (rest done us : List Nat) (g : Guard) (log : Log),
+theorem mapLoop_ok (lay : Layout) (cb : Callback) : ∀ (rest done us : List Nat) (g : Guard) (log : Log),
     Oks cb done.length rest us →
-    mapLoop cb rest.length done.length g ⟨done.map .liveU ++ rest.map .liveT, .owned⟩ log
+    mapLoop lay cb rest.length done.length g ⟨done.map .liveU ++ rest.map .liveT, .owned⟩ log
       = .fin .ok ⟨⟨(done ++ us).map .liveU, .owned⟩, none, log⟩
   | [], done, [], g, log, _ => by simp [mapLoop]
   | [], _, _ :: _, _, _, h => by simp [Oks] at h
@@ -91,7 +108,7 @@ theorem mapLoop_ok (cb : Callback) : ∀ (rest done us : List Nat) (g : Guard) (
     have hr := read_at (done.map .liveU) x (rest.map .liveT)
     have hw := write_at (done.map .liveU) .moved u (rest.map .liveT)
     rw [hl] at hr hw
-    have ih := mapLoop_ok cb rest (done ++ [u]) us { g with mapInProgress := done.length } log
+    have ih := mapLoop_ok lay cb rest (done ++ [u]) us { g with mapInProgress := done.length } log
       (by simpa using h.2)
     simp only [List.length_append, List.length_cons, List.length_nil, Nat.zero_add] at ih
     simp only [List.length_cons, List.map_cons, mapLoop, hr, h.1, hw]
@@ -100,13 +117,13 @@ theorem mapLoop_ok (cb : Callback) : ∀ (rest done us : List Nat) (g : Guard) (
     rw [e1, ih]
     simp
 
-theorem guardDrop_spec (done post : List Nat) (log : Log) (len : Nat)
+theorem guardDrop_spec (lay : Layout) (done post : List Nat) (log : Log) (len : Nat)
     (hlen : len = done.length + 1 + post.length) :
-    guardDrop ⟨len, done.length⟩ ⟨done.map .liveU ++ .moved :: post.map .liveT, .owned⟩ log
-      = .ok (⟨deadOf done ++ .moved :: deadOf post, .freed⟩, log ++ logOf .U done ++ logOf .T post) := by
-  have h1 := dropRange_run .U done [] (.moved :: post.map .liveT) log
+    guardDrop lay ⟨len, done.length⟩ ⟨done.map .liveU ++ .moved :: post.map .liveT, .owned⟩ log
+      = .ok (⟨deadOf done ++ .moved :: deadOf post, .freed⟩, log ++ logOf lay .U .U done ++ logOf lay .T .T post) := by
+  have h1 := dropRange_run lay .U done [] (.moved :: post.map .liveT) log
   simp only [List.nil_append, List.length_nil, ElemTy.live, ElemTy.tag] at h1
-  have h2 := dropRange_run .T post (deadOf done ++ [.moved]) [] (log ++ logOf .U done)
+  have h2 := dropRange_run lay .T post (deadOf done ++ [.moved]) [] (log ++ logOf lay .U .U done)
   simp only [List.append_nil, List.length_append, deadOf_length, List.length_cons, List.length_nil,
     Nat.zero_add, ElemTy.live, ElemTy.tag] at h2
   have e : len - (done.length + 1) = post.length := by omega
@@ -115,23 +132,23 @@ theorem guardDrop_spec (done post : List Nat) (log : Log) (len : Nat)
   simp only [guardDrop, h1, e, e2, h2, Region.free]
   simp
 
-theorem mapLoop_fail (cb : Callback) (mode : FailMode) (x : Nat) (post : List Nat) :
+theorem mapLoop_fail (lay : Layout) (cb : Callback) (mode : FailMode) (x : Nat) (post : List Nat) :
     ∀ (pre done us : List Nat) (g : Guard) (log : Log),
     g.len = done.length + pre.length + 1 + post.length →
     Oks cb done.length pre us →
     cb (done.length + pre.length) x = mode.out →
-    mapLoop cb (pre ++ x :: post).length done.length g
+    mapLoop lay cb (pre ++ x :: post).length done.length g
         ⟨done.map .liveU ++ (pre ++ x :: post).map .liveT, .owned⟩ log
       = .fin mode.exit ⟨⟨deadOf (done ++ us) ++ .moved :: deadOf post, .freed⟩, none,
-          log ++ [(x, .cb)] ++ logOf .U (done ++ us) ++ logOf .T post⟩
+          log ++ logOf lay .T .cb [x] ++ logOf lay .U .U (done ++ us) ++ logOf lay .T .T post⟩
   | [], done, [], g, log, hg, _, hc => by
     have hl : (done.map Slot.liveU).length = done.length := by simp
     have hr := read_at (done.map .liveU) x (post.map .liveT)
     rw [hl] at hr
-    have hgd := guardDrop_spec done post (log ++ [(x, .cb)]) g.len (by simpa using hg)
+    have hgd := guardDrop_spec lay done post (log ++ logOf lay .T .cb [x]) g.len (by simpa using hg)
     simp only [Nat.add_zero, List.length_nil] at hc
     cases mode <;>
-      simp [mapLoop, hr, hc, FailMode.out, failInPlace, hgd, FailMode.exit] at *
+      simp [mapLoop, hr, hc, FailMode.out, failInPlace, logDrop_eq, hgd, FailMode.exit] at *
   | [], _, _ :: _, _, _, _, h, _ => by simp [Oks] at h
   | y :: pre, done, [], _, _, _, h, _ => by simp [Oks] at h
   | y :: pre, done, u :: us, g, log, hg, h, hc => by
@@ -140,7 +157,7 @@ theorem mapLoop_fail (cb : Callback) (mode : FailMode) (x : Nat) (post : List Na
     have hr := read_at (done.map .liveU) y ((pre ++ x :: post).map .liveT)
     have hw := write_at (done.map .liveU) .moved u ((pre ++ x :: post).map .liveT)
     rw [hl] at hr hw
-    have ih := mapLoop_fail cb mode x post pre (done ++ [u]) us
+    have ih := mapLoop_fail lay cb mode x post pre (done ++ [u]) us
       { g with mapInProgress := done.length } log
       (by simp only [List.length_append, List.length_cons, List.length_nil] at hg ⊢; omega)
       (by simpa using h.2)
@@ -163,7 +180,7 @@ theorem mapLoop_fail (cb : Callback) (mode : FailMode) (x : Nat) (post : List Na
 theorem inPlace_ok (lay : Layout) (hl : lay.identical = true) (cb : Callback) (ids us : List Nat)
     (h : Oks cb 0 ids us) :
     mapVecInPlace lay cb ids = .fin .ok ⟨⟨us.map .liveU, .owned⟩, none, []⟩ := by
-  have := mapLoop_ok cb ids [] us ⟨ids.length, 0⟩ [] (by simpa using h)
+  have := mapLoop_ok lay cb ids [] us ⟨ids.length, 0⟩ [] (by simpa using h)
   simpa [mapVecInPlace, hl] using this
 
 /-- in-place path, first failure at position `pre.length`: exact final memory and drop log
@@ -173,34 +190,34 @@ theorem inPlace_fail (lay : Layout) (hl : lay.identical = true) (cb : Callback) 
     (h : Oks cb 0 pre us) (hx : cb pre.length x = mode.out) :
     mapVecInPlace lay cb (pre ++ x :: post)
       = .fin mode.exit ⟨⟨deadOf us ++ .moved :: deadOf post, .freed⟩, none,
-          (x, .cb) :: (logOf .U us ++ logOf .T post)⟩ := by
-  have := mapLoop_fail cb mode x post pre [] us ⟨(pre ++ x :: post).length, 0⟩ []
+          logOf lay .T .cb [x] ++ (logOf lay .U .U us ++ logOf lay .T .T post)⟩ := by
+  have := mapLoop_fail lay cb mode x post pre [] us ⟨(pre ++ x :: post).length, 0⟩ []
     (by simp; omega) (by simpa using h) (by simpa using hx)
   simpa [mapVecInPlace, hl] using this
 
 /-! ### fallback path -/
 
-theorem iterDrop_spec (gone : List Slot) (rest : List Nat) (log : Log) :
-    iterDrop gone.length ⟨gone ++ rest.map .liveT, .owned⟩ log
-      = .ok (⟨gone ++ deadOf rest, .freed⟩, log ++ logOf .T rest) := by
-  have h := dropRange_run .T rest gone [] log
+theorem iterDrop_spec (lay : Layout) (gone : List Slot) (rest : List Nat) (log : Log) :
+    iterDrop lay gone.length ⟨gone ++ rest.map .liveT, .owned⟩ log
+      = .ok (⟨gone ++ deadOf rest, .freed⟩, log ++ logOf lay .T .T rest) := by
+  have h := dropRange_run lay .T rest gone [] log
   simp only [List.append_nil, ElemTy.live, ElemTy.tag] at h
   have e : (gone ++ rest.map Slot.liveT).length - gone.length = rest.length := by simp
   simp [iterDrop, h, Region.free]
 
-theorem dropVecU_spec (us : List Nat) (log : Log) :
-    dropVecU ⟨us.map .liveU, .owned⟩ log = .ok (⟨deadOf us, .freed⟩, log ++ logOf .U us) := by
-  have h := dropRange_run .U us [] [] log
+theorem dropVecU_spec (lay : Layout) (us : List Nat) (log : Log) :
+    dropVecU lay ⟨us.map .liveU, .owned⟩ log = .ok (⟨deadOf us, .freed⟩, log ++ logOf lay .U .U us) := by
+  have h := dropRange_run lay .U us [] [] log
   simp only [List.append_nil, List.nil_append, List.length_nil, ElemTy.live, ElemTy.tag] at h
   simp [dropVecU, h, Region.free]
 
-theorem collectLoop_ok (cb : Callback) : ∀ (rest gone done us : List Nat) (log : Log),
+theorem collectLoop_ok (lay : Layout) (cb : Callback) : ∀ (rest gone done us : List Nat) (log : Log),
     Oks cb gone.length rest us →
-    collectLoop cb rest.length gone.length ⟨movedOf gone ++ rest.map .liveT, .owned⟩
+    collectLoop lay cb rest.length gone.length ⟨movedOf gone ++ rest.map .liveT, .owned⟩
         ⟨done.map .liveU, .owned⟩ log
       = .fin .ok ⟨⟨movedOf (gone ++ rest), .freed⟩, some ⟨(done ++ us).map .liveU, .owned⟩, log⟩
   | [], gone, done, [], log, _ => by
-    have h := iterDrop_spec (movedOf gone) [] log
+    have h := iterDrop_spec lay (movedOf gone) [] log
     simp only [movedOf_length, List.map_nil, List.append_nil] at h
     simp [collectLoop, h, deadOf, logOf]
   | [], _, _, _ :: _, _, h => by simp [Oks] at h
@@ -209,7 +226,7 @@ theorem collectLoop_ok (cb : Callback) : ∀ (rest gone done us : List Nat) (log
     simp only [Oks] at h
     have hr := read_at (movedOf gone) x (rest.map .liveT)
     rw [movedOf_length] at hr
-    have ih := collectLoop_ok cb rest (gone ++ [x]) (done ++ [u]) us log (by simpa using h.2)
+    have ih := collectLoop_ok lay cb rest (gone ++ [x]) (done ++ [u]) us log (by simpa using h.2)
     simp only [List.length_append, List.length_cons, List.length_nil, Nat.zero_add] at ih
     simp only [List.length_cons, List.map_cons, collectLoop, hr, h.1, Region.push]
     have e1 : movedOf gone ++ Slot.moved :: rest.map Slot.liveT
@@ -218,28 +235,28 @@ theorem collectLoop_ok (cb : Callback) : ∀ (rest gone done us : List Nat) (log
     rw [e1, e2, ih]
     simp
 
-theorem collectLoop_fail (cb : Callback) (mode : FailMode) (x : Nat) (post : List Nat) :
+theorem collectLoop_fail (lay : Layout) (cb : Callback) (mode : FailMode) (x : Nat) (post : List Nat) :
     ∀ (pre gone done us : List Nat) (log : Log),
     Oks cb gone.length pre us →
     cb (gone.length + pre.length) x = mode.out →
-    collectLoop cb (pre ++ x :: post).length gone.length
+    collectLoop lay cb (pre ++ x :: post).length gone.length
         ⟨movedOf gone ++ (pre ++ x :: post).map .liveT, .owned⟩ ⟨done.map .liveU, .owned⟩ log
       = .fin mode.exit ⟨⟨movedOf (gone ++ pre ++ [x]) ++ deadOf post, .freed⟩,
           some ⟨deadOf (done ++ us), .freed⟩,
-          log ++ [(x, .cb)] ++ logOf .T post ++ logOf .U (done ++ us)⟩
+          log ++ logOf lay .T .cb [x] ++ logOf lay .T .T post ++ logOf lay .U .U (done ++ us)⟩
   | [], gone, done, [], log, _, hc => by
     have hr := read_at (movedOf gone) x (post.map .liveT)
     rw [movedOf_length] at hr
-    have hi := iterDrop_spec (movedOf gone ++ [.moved]) post (log ++ [(x, .cb)])
+    have hi := iterDrop_spec lay (movedOf gone ++ [.moved]) post (log ++ logOf lay .T .cb [x])
     simp only [List.length_append, movedOf_length, List.length_cons, List.length_nil,
       Nat.zero_add] at hi
-    have hd := dropVecU_spec done (log ++ [(x, .cb)] ++ logOf .T post)
+    have hd := dropVecU_spec lay done (log ++ logOf lay .T .cb [x] ++ logOf lay .T .T post)
     have e1 : movedOf gone ++ Slot.moved :: post.map Slot.liveT
         = movedOf gone ++ [Slot.moved] ++ post.map Slot.liveT := by simp
     simp only [Nat.add_zero, List.length_nil] at hc
     cases mode <;>
     · simp only [FailMode.out] at hc
-      simp only [List.nil_append, List.length_cons, List.map_cons, collectLoop, hr, hc, failCollect,
+      simp only [List.nil_append, List.length_cons, List.map_cons, collectLoop, hr, hc, failCollect, logDrop_eq,
         e1, hi, hd, FailMode.exit]
       simp [movedOf]
   | [], _, _, _ :: _, _, h, _ => by simp [Oks] at h
@@ -248,7 +265,7 @@ theorem collectLoop_fail (cb : Callback) (mode : FailMode) (x : Nat) (post : Lis
     simp only [Oks] at h
     have hr := read_at (movedOf gone) y ((pre ++ x :: post).map .liveT)
     rw [movedOf_length] at hr
-    have ih := collectLoop_fail cb mode x post pre (gone ++ [y]) (done ++ [u]) us log
+    have ih := collectLoop_fail lay cb mode x post pre (gone ++ [y]) (done ++ [u]) us log
       (by simpa using h.2)
       (by
         simp only [List.length_append, List.length_cons, List.length_nil] at hc ⊢
@@ -266,19 +283,19 @@ theorem collectLoop_fail (cb : Callback) (mode : FailMode) (x : Nat) (post : Lis
 
 /-- fallback path, every element mapped: the source buffer is emptied and freed, the collected
     vector holds the new values in order, nothing was dropped -/
-theorem fallback_ok (cb : Callback) (ids us : List Nat) (h : Oks cb 0 ids us) :
-    mapVecFallback cb ids
+theorem fallback_ok (lay : Layout) (cb : Callback) (ids us : List Nat) (h : Oks cb 0 ids us) :
+    mapVecFallback lay cb ids
       = .fin .ok ⟨⟨movedOf ids, .freed⟩, some ⟨us.map .liveU, .owned⟩, []⟩ := by
-  have := collectLoop_ok cb ids [] [] us [] (by simpa using h)
+  have := collectLoop_ok lay cb ids [] [] us [] (by simpa using h)
   simpa [mapVecFallback, movedOf] using this
 
 /-- fallback path, first failure at position `pre.length` -/
-theorem fallback_fail (cb : Callback) (mode : FailMode) (pre : List Nat) (x : Nat) (post us : List Nat)
+theorem fallback_fail (lay : Layout) (cb : Callback) (mode : FailMode) (pre : List Nat) (x : Nat) (post us : List Nat)
     (h : Oks cb 0 pre us) (hx : cb pre.length x = mode.out) :
-    mapVecFallback cb (pre ++ x :: post)
+    mapVecFallback lay cb (pre ++ x :: post)
       = .fin mode.exit ⟨⟨movedOf (pre ++ [x]) ++ deadOf post, .freed⟩, some ⟨deadOf us, .freed⟩,
-          (x, .cb) :: (logOf .T post ++ logOf .U us)⟩ := by
-  have := collectLoop_fail cb mode x post pre [] [] us [] (by simpa using h) (by simpa using hx)
+          logOf lay .T .cb [x] ++ (logOf lay .T .T post ++ logOf lay .U .U us)⟩ := by
+  have := collectLoop_fail lay cb mode x post pre [] [] us [] (by simpa using h) (by simpa using hx)
   simpa [mapVecFallback, movedOf] using this
 
 /-! ### both paths together -/
@@ -295,9 +312,9 @@ def okFinal (lay : Layout) (ids us : List Nat) : St :=
 def failFinal (lay : Layout) (pre : List Nat) (x : Nat) (post us : List Nat) : St :=
   if usesFallback lay then
     ⟨⟨movedOf (pre ++ [x]) ++ deadOf post, .freed⟩, some ⟨deadOf us, .freed⟩,
-      (x, .cb) :: (logOf .T post ++ logOf .U us)⟩
+      logOf lay .T .cb [x] ++ (logOf lay .T .T post ++ logOf lay .U .U us)⟩
   else
-    ⟨⟨deadOf us ++ .moved :: deadOf post, .freed⟩, none, (x, .cb) :: (logOf .U us ++ logOf .T post)⟩
+    ⟨⟨deadOf us ++ .moved :: deadOf post, .freed⟩, none, logOf lay .T .cb [x] ++ (logOf lay .U .U us ++ logOf lay .T .T post)⟩
 
 theorem identical_of_not_fallback {lay : Layout} (hb : ¬ usesFallback lay = true) :
     lay.identical = true := by
@@ -307,7 +324,7 @@ theorem vec_run_ok (lay : Layout) (cb : Callback) (ids us : List Nat) (h : Oks c
     fallibleMapVec lay cb ids = .fin .ok (okFinal lay ids us) := by
   unfold fallibleMapVec okFinal
   by_cases hb : usesFallback lay = true
-  · rw [if_pos hb, if_pos (by simpa [usesFallback] using hb)]; exact fallback_ok cb ids us h
+  · rw [if_pos hb, if_pos (by simpa [usesFallback] using hb)]; exact fallback_ok lay cb ids us h
   · rw [if_neg hb, if_neg (by simpa [usesFallback] using hb)]
     exact inPlace_ok lay (identical_of_not_fallback hb) cb ids us h
 
@@ -318,7 +335,7 @@ theorem vec_run_fail (lay : Layout) (cb : Callback) (mode : FailMode)
   unfold fallibleMapVec failFinal
   by_cases hb : usesFallback lay = true
   · rw [if_pos hb, if_pos (by simpa [usesFallback] using hb)]
-    exact fallback_fail cb mode pre x post us h hx
+    exact fallback_fail lay cb mode pre x post us h hx
   · rw [if_neg hb, if_neg (by simpa [usesFallback] using hb)]
     exact inPlace_fail lay (identical_of_not_fallback hb) cb mode pre x post us h hx
 
